@@ -1542,8 +1542,16 @@ impl AstNode for ChainSpecificBlock {
 /// let program = parse_string("tx swap() {}").unwrap();
 /// ```
 pub fn parse_string(input: &str) -> Result<Program, Error> {
-    let pairs = Tx3Grammar::parse(Rule::program, input)?;
-    Program::parse(pairs.into_iter().next().unwrap())
+    // the label of an error is an offset into the whole input, so that is the text
+    // the error has to carry for display (not just the offending line or token)
+    let with_source = |mut error: Error| {
+        error.src = input.to_string();
+        error
+    };
+
+    let pairs = Tx3Grammar::parse(Rule::program, input).map_err(|e| with_source(e.into()))?;
+
+    Program::parse(pairs.into_iter().next().unwrap()).map_err(with_source)
 }
 
 #[cfg(test)]
